@@ -70,6 +70,10 @@ func NewCommentReader(r io.Reader, startMatches, endMatches [][]byte, isComments
 		b: &bytes.Buffer{},
 	}
 
+	// A token is a whole string, comment or run of plain text, which may be
+	// larger than the default 64KB limit of scanner.
+	v.s.Buffer(nil, int(^uint(0)>>1))
+
 	v.s.Split(func(data []byte, atEOF bool) (advance int, token []byte, err error) {
 		if atEOF && len(data) == 0 {
 			// read more.
